@@ -11,7 +11,11 @@ RULE = ("random transducers (1-4 string-named states shared between operands so 
         "kleene_star structurally with the model and relationally with the composition of the operand relations, "
         "FiniteAutomaton.to_fst with the identity on the automaton's language. Non-trivial: >=2 states and >=3 transitions.")
 LEVEL = "proof"
-THEOREMS = ["Pfl.FST.relOutputs_iff",
+THEOREMS = ["Pfl.FST.translate_bounded_isSome",
+            "Pfl.FST.translate_isSome",
+            "Pfl.FST.translate_total",
+            "Pfl.FST.translate_diverges",
+            "Pfl.FST.relOutputs_iff",
             "Pfl.FST.translate_exact",
             "Pfl.FST.rename_injective",
             "Pfl.FST.union_rel",
